@@ -26,6 +26,8 @@ func checkC04(c *Ctx, r *Report) {
 	r.Trusted = []string{"go/types resolution", "go/ssa translation", "RFC 3597 s.4 list of compressible RDATA names in checker/c04.go"}
 	c04R1(c, r)
 	c04R2(c, r)
+	insertOnMissOnly(c, r, "C04.R3.insert-on-miss-only")
+	borrow(c, r, c08R5, "C08.R5.escape-skip", "C04.R3.escape-skip", 1, "escapedNameLen steps over a whole escape", nil, "the 255-octet test made where a compression pointer replaces the rest of a name undercounts names with escapes: a name of 256 octets is emitted, which no decoder accepts")
 	c04R3(c, r)
 	c04R4b(c, r)
 	c04R5(c, r)
